@@ -105,10 +105,20 @@ def shape(rep, prog):
     g_same = repr(tkey(ev.fresh().truth(spec(ev, "n1 == n2", env, f.mod))))
     g_vs = repr(tkey(ev.fresh().truth(spec(ev, "any([is_ideal_voltage_source(b.element) for b in network.branches_between(n1, n2)])", env, f.mod))))
     def zero(l): return isinstance(l, (int, Poly)) and not isinstance(l, bool) and as_poly(l).is_zero()
-    same_nodes = any(set(pc) == {(g_same, True)} and zero(l) for pc, l in paths)
-    across_vs = any(set(pc) == {(g_same, False), (g_vs, True)} and zero(l) for pc, l in paths) or any(set(pc) == {(g_vs, True)} and zero(l) for pc, l in paths)
-    rep.ob('R06.shape', 'identical-nodes', same_nodes, 'n1 == n2 returns 0 before any matrix work' if same_nodes else f'no path {{n1 == n2}} -> 0 found among {len(paths)} paths', f.site)
-    rep.ob('R06.shape', 'across-ideal-voltage-source', across_vs, 'an ideal voltage source between the nodes returns 0 before any matrix work' if across_vs else 'no such early return', f.site)
+    # evaluated again under each hypothesis: every path must then yield 0 (however the two tests are combined or ordered)
+    def under(seed):
+        e2 = new_ev(prog); e2.opaque_fns = set(ev.opaque_fns); seed(e2)
+        t2 = call(e2, f, [A('network'), A('n1'), A('n2')])
+        lv = [l for _, l in paths_of(t2)]
+        if all(zero(l) for l in lv): return True, t2
+        return (None if any("'?'" in repr(tkey(l)) for l in lv if not zero(l)) else False), t2
+    same_nodes, t_s = under(lambda e2: e2.add_fact(A('n1') - A('n2'), '==0'))
+    g_vs_term = ev.fresh().truth(spec(ev, "any([is_ideal_voltage_source(b.element) for b in network.branches_between(n1, n2)])", env, f.mod))
+    across_vs, t_v = under(lambda e2: e2.assumed.append((g_vs_term, True)))
+    if across_vs is None and repr(tkey(g_vs_term)) not in repr(tkey(t)):
+        across_vs = False        # the result does not depend on that test at all
+    rep.ob('R06.shape', 'identical-nodes', same_nodes, 'n1 == n2 yields 0 on every path' if same_nodes else f'with n1 == n2 the result is {t_s!r:.200}', f.site)
+    rep.ob('R06.shape', 'across-ideal-voltage-source', across_vs, 'an ideal voltage source between the nodes yields 0 on every path' if across_vs else f'with an ideal voltage source between the nodes the result is {t_v!r:.200}', f.site)
     # re-referencing and the node that is looked up: evaluate once under each answer of `network.is_zero_node(n1)`
     zn = ev.fresh().call_method(A('network'), 'is_zero_node', [A('n1')], {}, f.mod, 0)
     is_lookup = lambda x: len(x) == 3 and x[0] == '[]' and isinstance(x[1], tuple) and len(x[1]) >= 3 and x[1][0] == 'call' and x[1][1] == ('fn', 'alphabetic_node_mapper')
